@@ -94,7 +94,7 @@ def coq_tables(tag, project):
 
 def coq_case(tag, project, key, loc, a, flavours, oracle):
     env = pc.env_of(key, a)
-    lang = pc.LANGS.index(loc.split("-")[0]) if loc.split("-")[0] in pc.LANGS else 0
+    lang = pc.LANGS.index(pc.lang_of(loc)) if pc.lang_of(loc) else 0
     icu = 6
     if key.plural:
         icu = FORM_CODE.get(oracle.get((loc, key.plural, pc.count_of(key, a))), 7)
@@ -256,19 +256,19 @@ def run(ctx):
         raise core.Infra("TargetCheck.v does not build: " + logc[-600:])
     rng = ctx.rng
     # inherits shapes: chain of depth 2 (fr-BE -> fr-CA -> fr), fork (de-AT, de-CH -> de), child of a non-default parent,
-    # cycle (es-AR <-> es-MX), explicit inheritance from the default (pt-BR -> en), none (it: implicit default)
-    # languages en/fr/ar/ru/pl: five different CLDR plural patterns (the rules written out in Runtime/CldrRules.v)
-    plans = [("ns", dict(n_keys=36, locales=["en", "fr", "fr-CA", "fr-BE", "ar", "ar-EG", "ar-SA", "ru-BY", "ru-UA", "en-GB", "pl"],
+    # cycle (ru-BY <-> ru-UA), explicit inheritance from the default (pt -> en), none (pt-PT: implicit default)
+    # languages en/fr/ar/ru/pt/pt-PT: six different CLDR plural patterns (Runtime/CldrRules.v)
+    plans = [("ns", dict(n_keys=36, locales=["en", "fr", "fr-CA", "fr-BE", "ar", "ar-EG", "ar-SA", "ru-BY", "ru-UA", "pt", "pt-PT"],
                          namespaces=["common", "home"], wide=True,
                          inherits={"fr-CA": "fr", "fr-BE": "fr-CA", "ar-EG": "ar", "ar-SA": "ar", "ru-BY": "ru-UA",
-                                   "ru-UA": "ru-BY", "en-GB": "en"}))]
+                                   "ru-UA": "ru-BY", "pt": "en"}))]
     if not ctx.quick:
         many = ["l%s" % chr(97 + i) for i in range(18)]
         plans += [("flat", dict(n_keys=90, locales=["en", "fr", "fr-CA"], namespaces=None, wide=True, inherits={"fr-CA": "fr"})),
                   ("many", dict(n_keys=14, locales=many, namespaces=None, wide=False,
                                 inherits={"lc": "lb", "ld": "lc", "le": "le", "lf": "la", "lg": "lr", "lr": "lq"})),
                   ("one", dict(n_keys=40, locales=["ar"], namespaces=["only"], wide=True)),
-                  ("five", dict(n_keys=40, locales=["ru", "fr", "en", "ar", "cy"], namespaces=None, wide=False,
+                  ("five", dict(n_keys=40, locales=["ru", "fr", "en", "ar", "cy", "pl", "pt-PT"], namespaces=None, wide=False,
                                 inherits={"fr": "en", "en": "fr", "ar": "cy"})),
                   ("nogaps", dict(n_keys=40, locales=["fr", "en", "ja"], namespaces=["common"], wide=True, gaps=False)),
                   ("nonlang", dict(n_keys=30, locales=["de", "es", "pt-BR", "it"], namespaces=None, wide=False,
